@@ -1,6 +1,7 @@
 /- Driver operations for mnemonics (C01, C02, C17). -/
 import BipVerif.Driver.Proto
 import BipVerif.Model.Mnemonics
+import BipVerif.Model.Seed
 import BipVerif.Gen.Words
 import BipVerif.Prim.Sha256
 import BipVerif.Prim.Sha512
@@ -89,8 +90,7 @@ def mnemonicOps : List (String × Op) := [
       let salt ← argBytes salt
       let r : R String := do
         let ws ← bip39Sentence o s
-        let _ ← bip39Decode Prim.sha256 bip39Langs lang ws
-        pure (outBytes (Prim.pbkdf2HmacSha512 (sentenceStr ws) salt 2048 64))
+        pure (outBytes (← bip39Seed Prim.sha256 bip39Langs lang ws salt))
       pure (reply r id)
     | _ => none),
   ("subseed", fun a => match a with        -- Substrate: PBKDF2 with the entropy as password
@@ -101,8 +101,7 @@ def mnemonicOps : List (String × Op) := [
       let salt ← argBytes salt
       let r : R String := do
         let ws ← bip39Sentence o s
-        let ent ← bip39Decode Prim.sha256 bip39Langs lang ws
-        pure (outBytes (Prim.pbkdf2HmacSha512 ent salt 2048 64))
+        pure (outBytes (← substrateSeed Prim.sha256 bip39Langs lang ws salt))
       pure (reply r id)
     | _ => none),
   ("monenc", fun a => match a with
@@ -149,9 +148,7 @@ def mnemonicOps : List (String × Op) := [
       let o ← argOracle o
       let r : R String := do
         let ws ← bip39Sentence o s
-        let ent ← electrumV1Decode electrumV1List ws
-        let hexb : Bytes := (Bytes.toHex ent).toUTF8.toList
-        pure (outBytes ((List.range 100000).foldl (fun h _ => Prim.sha256 (h ++ hexb)) hexb))
+        pure (outBytes (← electrumV1Seed electrumV1List ws))
       pure (reply r id)
     | _ => none),
   ("ev2enc", fun a => match a with          -- ev2enc lang type ent
@@ -186,10 +183,7 @@ def mnemonicOps : List (String × Op) := [
       let salt ← argBytes salt
       let r : R String := do
         let ws ← bip39Sentence o s
-        if !(ws.length = 12 || ws.length = 24) then throw Err.value
-        if !v2Valid ws none then throw Err.value
-        let _ ← electrumV2DecodeIdx bip39Langs lang ws
-        pure (outBytes (Prim.pbkdf2HmacSha512 (sentenceStr ws) salt 2048 64))
+        pure (outBytes (← electrumV2Seed (fun ws => v2Valid ws none) bip39Langs lang ws salt))
       pure (reply r id)
     | _ => none)
 ]
